@@ -534,10 +534,24 @@ class Engine(Interp):
             except ReturnEx as r:
                 result = r.value
             except PyRaise as pr:
+                self.note_live_path()
                 self.check_exceptional(c, pr, modname, env, fr.old, fnode)
                 return
+            self.note_live_path()
             self.check_normal(c, result, env, fr.old, fnode, modname)
+        self.live_paths = 0
         self.ctx.explore(run)
+        # vacuity guard: some path must reach its end with a satisfiable (quantifier-free part of the) path condition - if every
+        # path died on contradictory assumptions (assumed callee contracts, lemmas, loop invariants), everything was "proved"
+        self.ctx.oblige("live-path", z3.BoolVal(self.live_paths > 0), fnode.lineno,
+                        note="at least one path reaches the end of the function with consistent assumptions", assume_after=False)
+
+    def note_live_path(self):
+        try:
+            if self.ctx.solver.check() != z3.unsat:
+                self.live_paths += 1
+        except z3.Z3Exception:
+            self.live_paths += 1
 
     def check_normal(self, c, result, env, old, fnode, modname):
         line = fnode.lineno
@@ -550,6 +564,9 @@ class Engine(Interp):
         post_env = dict(env)
         post_env.update(getattr(self.frame, "entry", {}))
         post_env["result"] = result
+        if self.frame.qualname.startswith("vf.proplemmas."):
+            # a property lemma lives on assumed callee contracts: what they promise together must be satisfiable on this path
+            self.ctx.oblige("path-sat", z3.BoolVal(True), line, expect_sat=True, note="callee contracts jointly satisfiable at return")
         # iff-conditions of raises: a normal return means none of them held
         for exc_name, cond in c.raises.items():
             if cond is not None:
